@@ -543,6 +543,10 @@ func TestC16(t *testing.T) {
 		c = base
 		c.maxLinks = 2
 		emit(c, []edit{{true, "a", v0a}, {true, "b", v0a}, {true, "c", v0a}, {false, "a", 0}}, "corpus-C16-3")
+		// C16-5: replacing the long-named entry of a HAMT by itself must not convert it
+		c = base
+		c.thresh = 120
+		emit(c, []edit{{true, rep("a", 6), v0a}, {true, rep("b", 6), v0a}, {true, rep("x", 50), v0a}, {true, rep("x", 50), v0a}}, "corpus-C16-5")
 		// C16-4: block mode, three removals after one add: the gate in mixed units stays shut
 		for xl := 88; xl <= 112; xl++ {
 			c = base
@@ -555,7 +559,7 @@ func TestC16(t *testing.T) {
 	}
 
 	// ---- random histories ----
-	n := e.Pick(420, 9000)
+	n := e.Pick(420, 4000)
 	for i := 0; i < n; i++ {
 		c := config{width: widths[r.Intn(len(widths))], global: 256 * 1024, dynamic: r.Intn(8) != 0}
 		if r.Intn(3) == 0 {
